@@ -14,7 +14,7 @@ FUNCTIONS = ["FmtStr.__eq__", "FmtStr.__hash__", "FmtStr.__repr__", "Chunk.repr_
              "fmtfuncs.* (eval of repr)", "FmtStr.__str__"]
 BOUNDS = ("two FmtStrs of 0..2 runs each, every run text a symbolic string of length <= L (quick 1, thorough 2) over the "
           "alphabet {a, b} (equality / hashing) or {a, ', \\\\, newline, U+00E9} (repr), attribute layouts from an 11-entry "
-          "catalogue (pairs), plain str operands: symbolic <= 3 characters and terminal strings of a second FmtStr; "
+          "catalogue (23 pairs), plain str operands: symbolic <= 3 characters and terminal strings of a second FmtStr; "
           "repr: 1..2 runs over the C01 reduced attribute set (quick) / all 5184+ patterns with False values (thorough)")
 STUBS = ["native CrossHair symbolic str; hashing realises the hashed string (small alphabets keep that finite)"]
 
@@ -23,7 +23,9 @@ ATT = [{}, {"fg": 31}, {"fg": 32}, {"bold": True}, {"bold": False}, {"fg": 31, "
 # layouts: (run attributes of f, run attributes of g)
 LAYOUTS = [((), ()), ((0,), ()), ((0,), (0,)), ((1,), (1,)), ((1,), (2,)), ((1,), (0,)), ((3,), (4,)), ((0,), (4,)), ((1,), (8,)),
            ((1, 1), (1,)), ((1, 3), (1, 3)), ((1, 3), (3, 1)), ((0, 0), (0,)), ((5,), (1, 3)), ((1,), (1, 0)), ((6,), (6,)),
-           ((7,), (1,)), ((9,), (9,)), ((10,), (0,)), ((1, 2), (1, 2))]
+           ((7,), (1,)), ((9,), (9,)), ((10,), (0,)), ((1, 2), (1, 2)),
+           # same number of runs, run boundaries in different places (equal terminal strings when the runs are unformatted)
+           ((0, 0), (0, 0)), ((1, 1), (1, 1)), ((0, 4), (4, 0))]
 
 REPR_REDUCED = [
     {}, {"fg": 31}, {"bg": 42}, {"fg": 33, "bg": 44}, {"bold": True}, {"bold": False}, {"underline": True, "fg": 35},
